@@ -199,6 +199,17 @@ func (p *Policy) Essential() bool {
 	return seen == p.Full()
 }
 
+// RedundantHolders returns the mask of holders that occur in no minimal qualified set (adding or
+// removing such a holder never changes whether a set is qualified). For a CNF policy these are
+// the holders contained in every maximal unqualified set.
+func (p *Policy) RedundantHolders() uint64 {
+	var seen uint64
+	for _, s := range p.MinimalQualified() {
+		seen |= s
+	}
+	return p.Full() &^ seen
+}
+
 // Rows returns how many span-programme rows holder i owns under the library's constructions
 // (1 for ideal families; number of clauses containing i for CNF; number of leaves for gates).
 func (p *Policy) Rows(i int) int {
